@@ -85,6 +85,7 @@ def step (s : State) : Ev → State
     | some c =>
       if c.call.isSome then s else
       let id := s.nextCall
+      if !Sig.enabled s.srv (.init id me peer) then s else
       let s1 := { s with srv := Sig.step s.srv (.init id me peer), chans := s.chans ++ [{ call := id }], nextCall := id + 1 }
       setClient s1 { c with call := some id }
     | none => s
@@ -99,7 +100,7 @@ def step (s : State) : Ev → State
         | none => s1
       | none => s
     | none => s
-  | .srvEnd call => { s with srv := Sig.step s.srv (.end_ call) }
+  | .srvEnd call => if Sig.enabled s.srv (.end_ call) then { s with srv := Sig.step s.srv (.end_ call) } else s
   | .sendStart me peer m => liftClient s me peer (fun st => if SigC.enabled st (.sendStart m) then SigC.step st (.sendStart m) else st)
   | .sendStep me peer id => liftClient s me peer (fun st => if SigC.enabled st (.sendStep id) then SigC.step st (.sendStep id) else st)
   | .sendCancel me peer id => liftClient s me peer (fun st => if SigC.enabled st (.sendCancel id) then SigC.step st (.sendCancel id) else st)
